@@ -357,7 +357,17 @@ def _drive_chunk(run: Run, test_fn: Callable[..., None], strategy_args: Dict[str
         # thorough tier: no shrink phase (Hypothesis' shrinker can spend 5 minutes per failure; the checks localise the
         # root cause themselves and the unshrunk case is a valid replay). quick tier shrinks.
         shrink = setkw.pop("shrink", run.tier == "quick")
-        wrapped = hypothesis.seed(seed)(hyp_settings(max_examples, shrink=shrink, **setkw)(given(**strategy_args)(test_fn)))
+        first_found: List[Found] = []
+
+        def remembering(**k: Any) -> None:
+            try:
+                test_fn(**k)
+            except Found as f:
+                if not first_found:
+                    first_found.append(f)
+                raise
+
+        wrapped = hypothesis.seed(seed)(hyp_settings(max_examples, shrink=shrink, **setkw)(given(**strategy_args)(remembering)))
         try:
             wrapped()
             return
@@ -372,6 +382,23 @@ def _drive_chunk(run: Run, test_fn: Callable[..., None], strategy_args: Dict[str
             # The body is not a pure function of its input: that is our bug or a genuine
             # history dependence; the check decides. Default: harness error.
             raise HarnessError(f"flaky: {ex}") from ex
+        except Exception as ex:
+            # Hypothesis' shrinker itself failed (seen: ValueError in intervalsets.index on text strategies) after the body had
+            # reported a violation: keep the unshrunk violation instead of losing it.
+            if first_found and "hypothesis" in _innermost_file(ex):
+                run.notes.append(f"hypothesis shrinker failed with {type(ex).__name__}; kept the unshrunk case")
+                run.record_found(first_found[0])
+                continue
+            raise
+
+
+def _innermost_file(ex: BaseException) -> str:
+    tb = ex.__traceback__
+    last = ""
+    while tb is not None:
+        last = tb.tb_frame.f_code.co_filename
+        tb = tb.tb_next
+    return last
 
 
 def run_sharded(pid: str, tier: str, seed: int, campaign: Callable[[Run], None], shards: int, rule: str = "") -> List[Dict[str, Any]]:
